@@ -4,7 +4,7 @@
     specification (Spec/Ps35.v); [write_dataset], [enc_prim_element], [enc_prim],
     [calc_byte_len] are the models of the dicom-rs code. *)
 From DicomV Require Import Base.Endian Model.Vr Model.Header Model.Prim Model.Dataset Model.Writer Spec.Ps35
-  Proofs.HeaderP Proofs.PrimP Proofs.WriterP Proofs.ValidP Proofs.FlatP Proofs.NestedP.
+  Proofs.HeaderP Proofs.PrimP Proofs.WriterP Proofs.ValidP Proofs.FlatP Proofs.NestedP Proofs.ValidTreeP.
 Open Scope N_scope.
 
 (** Every byte count returned by [BasicEncode::encode_primitive] equals the
@@ -92,7 +92,37 @@ Theorem C04_nested_sequence_shape : forall f c t v l its,
   obind (st_enc_header c t SQ undef) (fun h => obind (enc_items f c its) (fun body => Ok (h ++ body ++ enc_seq_delim c))).
 Proof. exact enc_tree_seq. Qed.
 
-(** Full statement (nested data sets), kept visible; proved above for flat data sets only. *)
+(** NESTED data sets (sequences and items of any depth, encapsulated pixel data
+    with offset table and fragments), default strategy (every sequence/item
+    gets an undefined length and its delimiter), every codec: every stream the
+    writer produces is accepted by the independent structural validator
+    [ps35_valid] (lengths even and exact, undefined-length sequences and items
+    closed by the matching zero-length delimiters, fragments with defined even
+    lengths closed by a sequence delimiter). [vable]: primitive elements as in
+    the flat theorem; sequence tags outside group FFFE; in implicit VR [is_sq]
+    tells the validator which tags are sequences (true for the sequence tags,
+    false for Pixel Data). Proof: writer = direct recursive encoding
+    (Proofs/NestedP.v) + validator over that encoding by mutual structural
+    induction (Proofs/ValidTreeP.v). *)
+Theorem C04_valid_nested : forall c is_sq es b,
+  Forall (vable c is_sq) es -> write_dataset c false false es = Ok b -> ps35_valid c is_sq b = true.
+Proof.
+  intros c is_sq es b V W. apply (write_tree_valid c is_sq es b V); [|exact W].
+  eapply Forall_impl; [apply (vable_regular c is_sq) | exact V].
+Qed.
+
+Example C04_nested_nonvacuous :
+  Forall (vable ELE (fun _ => false))
+    [ EPrim (16, 16) PN 0 (PStrs [[68; 111; 101]]);
+      ESeq (64, 629) SQ 0 [ (0, [EPrim (8, 256) SH 0 (PStrs [[65]]); ESeq (8, 4416) SQ 0 [(0, [])]]); (0, []) ];
+      EPix pixel_tag OB undef [] [[1; 2]; []] ].
+Proof.
+  repeat constructor; unfold elem_ok, plain, wf_tag;
+    repeat (split || constructor); cbn; try reflexivity; try discriminate; try lia; try (intros; discriminate).
+Qed.
+
+(** Full statement, kept visible. Proved above: flat data sets (both strategies) and nested data sets
+    under the default strategy. NOT proved: the NoChange strategy with recorded defined lengths. *)
 Definition C04_valid_full_statement : Prop :=
   forall c nochange inv is_sq (wf_dataset : codec -> bool -> list elem -> Prop) es b,
     wf_dataset c nochange es -> write_dataset c nochange inv es = Ok b -> ps35_valid c is_sq b = true.
@@ -109,6 +139,8 @@ Example C04_nonvacuous :
 Proof. vm_compute. repeat split. Qed.
 
 Check C04_counts : forall c p, snd (enc_prim c p) = blen (fst (enc_prim c p)).
+Check C04_valid_nested : forall c is_sq es b,
+  Forall (vable c is_sq) es -> write_dataset c false false es = Ok b -> ps35_valid c is_sq b = true.
 Check C04_valid_flat : forall c nochange inv is_sq es b,
   Forall (elem_ok c is_sq) es -> write_dataset c nochange inv es = Ok b ->
   ps35_valid c is_sq b = true /\ b = canon_encode c (map (to_c c) es).
@@ -126,4 +158,5 @@ Print Assumptions C04_pad_byte.
 Print Assumptions C04_valid_flat.
 Print Assumptions C04_spec_valid_flat.
 Print Assumptions C04_write_nested_partial.
+Print Assumptions C04_valid_nested.
 Print Assumptions C04_nested_sequence_shape.
